@@ -33,6 +33,10 @@ pub struct TlCall {
     /// the inner call is busy (drains the cooperative budget on every poll) instead of idle
     #[serde(default)]
     pub busy: bool,
+    /// poll_ready is driven on a clone of the service this many ms before the call is made on it
+    /// (a pre-warmed or pooled ready service that sits idle until the request comes)
+    #[serde(default)]
+    pub ready_before: u64,
 }
 
 #[derive(Clone, Debug, Serialize, Deserialize)]
@@ -75,18 +79,20 @@ fn case_strategy(_tier: Tier) -> BoxedStrategy<TlCase> {
         1 => Just(LatRel::Never),
     ];
     let call = (
-        prop_oneof![2 => Just(0u64), 1 => 0u64..=20],
+        prop_oneof![2 => Just(0u64), 1 => 0u64..=20, 1 => 20u64..=60],
         timeout_strategy(),
         lat,
         prop::bool::weighted(0.6),
         prop::bool::weighted(0.25),
+        prop_oneof![3 => Just(0u64), 1 => 1u64..=40, 1 => (1u64..=30).prop_map(|k| k * 10)],
     )
-        .prop_map(|(at, timeout, lat, ok, busy)| TlCall {
+        .prop_map(|(at, timeout, lat, ok, busy, ready_before)| TlCall {
             at,
             timeout,
             lat,
             ok,
             busy,
+            ready_before,
         });
     (
         timeout_strategy(),
@@ -192,7 +198,7 @@ async fn interp(case: &TlCase) -> Verdict {
     }
     let inner = Scripted::from_table(log.clone(), table, Step::ok(0));
     // two differently typed services (fixed / per-request timeout): box the call closure
-    let mut call: Option<Box<dyn FnMut(Req) -> Fut>> = Some(if case.per_request {
+    let mut call: Option<Box<dyn FnMut(usize, Option<Req>) -> Option<Fut>>> = Some(if case.per_request {
         fn per_req(r: &Req) -> Duration {
             Duration::from_millis(r.tag)
         }
@@ -208,11 +214,25 @@ async fn interp(case: &TlCase) -> Verdict {
                 .build()
         };
         let mut svc = layer.layer(inner.clone());
-        Box::new(move |req| {
-            let _ = svc.poll_ready(&mut std::task::Context::from_waker(
-                futures::task::noop_waker_ref(),
-            ));
-            Box::pin(svc.call(req)) as Fut
+        let mut warm = std::collections::HashMap::new();
+        Box::new(move |i, req| {
+            let mut cx = std::task::Context::from_waker(futures::task::noop_waker_ref());
+            match req {
+                // drive a clone to readiness now, call it later
+                None => {
+                    let mut c = svc.clone();
+                    let _ = c.poll_ready(&mut cx);
+                    warm.insert(i, c);
+                    None
+                }
+                Some(req) => match warm.remove(&i) {
+                    Some(mut c) => Some(Box::pin(c.call(req)) as Fut),
+                    None => {
+                        let _ = svc.poll_ready(&mut cx);
+                        Some(Box::pin(svc.call(req)) as Fut)
+                    }
+                },
+            }
         })
     } else {
         let fixed = if case.huge_timeout {
@@ -232,11 +252,25 @@ async fn interp(case: &TlCase) -> Verdict {
                 .build()
         };
         let mut svc = layer.layer(inner.clone());
-        Box::new(move |req| {
-            let _ = svc.poll_ready(&mut std::task::Context::from_waker(
-                futures::task::noop_waker_ref(),
-            ));
-            Box::pin(svc.call(req)) as Fut
+        let mut warm = std::collections::HashMap::new();
+        Box::new(move |i, req| {
+            let mut cx = std::task::Context::from_waker(futures::task::noop_waker_ref());
+            match req {
+                // drive a clone to readiness now, call it later
+                None => {
+                    let mut c = svc.clone();
+                    let _ = c.poll_ready(&mut cx);
+                    warm.insert(i, c);
+                    None
+                }
+                Some(req) => match warm.remove(&i) {
+                    Some(mut c) => Some(Box::pin(c.call(req)) as Fut),
+                    None => {
+                        let _ = svc.poll_ready(&mut cx);
+                        Some(Box::pin(svc.call(req)) as Fut)
+                    }
+                },
+            }
         })
     });
     let last_arrival = case.calls.iter().map(|c| c.at).max().unwrap_or(0);
@@ -257,13 +291,22 @@ async fn interp(case: &TlCase) -> Verdict {
             sim.begin_instant().await;
         }
         for i in 0..n {
+            let c = &case.calls[i];
+            if c.ready_before > 0 && c.at > 0 && c.at.saturating_sub(c.ready_before) == t {
+                if let Some(f) = call.as_mut() {
+                    let _ = f(i, None);
+                }
+            }
+        }
+        for i in 0..n {
             if case.calls[i].at == t {
                 let req = Req {
                     id: i as u32,
                     key: 0,
                     tag: touts[i],
                 };
-                let fut = (call.as_mut().expect("service alive until the last arrival"))(req);
+                let fut = (call.as_mut().expect("service alive until the last arrival"))(i, Some(req))
+                    .expect("a call returns its future");
                 task[i] = Some(sim.spawn_call(fut, map_outcome));
             }
         }
@@ -444,6 +487,9 @@ async fn interp(case: &TlCase) -> Verdict {
     }
     if case.hold.is_some() {
         classes.push("resolved_future_kept_alive");
+    }
+    if case.calls.iter().any(|c| c.ready_before > 0 && c.at > 0) {
+        classes.push("ready_service_idle_before_the_call");
     }
     Verdict {
         violations,
